@@ -78,6 +78,8 @@ pub fn exprs(thorough: bool) -> Vec<Value> {
         json!({"if": [{"var": "nope"}, 1, {"var": "m_log"}]}), json!({"var": ["nope", {"var": "m_var"}]}),
         json!({"map": [{"var": "arr"}, {"var": ""}]}), json!({"missing": ["one", "q"]}),
         json!({"merge": [[{"var": "s"}], 2.0]}), json!({"if": [true, [{"log": "LEAK"}]]}),
+        // array literals of every small length: where ONE operand stands they are one operand
+        json!([1, 2, 3]), json!(["abc", 1]), json!([[1, 1]]), json!([{"var": "one"}]),
     ];
     if thorough {
         e.extend([
@@ -465,7 +467,9 @@ pub fn run(ctx: &mut Ctx) {
     let evald: Vec<crate::exec::Obs> = es.iter().map(|e| ctx.exec(e, &d)).collect();
     for k in EAGER {
         for n in 1..=3usize {
-            if !refmodel::arity_ok(k, n) {
+            // counts the operator does not accept are part of the law as well (both sides are errors), up to two
+            // operands: an operand list is not re-shaped by what the operands are (literal arrays, arrays of arrays)
+            if !refmodel::arity_ok(k, n) && n > 2 {
                 continue;
             }
             for idx in al::tuples(&(0..es.len()).map(|i| json!(i)).collect::<Vec<_>>(), n) {
